@@ -7,10 +7,6 @@ Local Close Scope Q_scope.
 Local Open Scope R_scope.
 Local Open Scope list_scope.
 
-Lemma as_num_Some e x : as_num e = Some x -> e = Num x.
-Proof. destruct e; cbn; intros H; try discriminate. congruence. Qed.
-Lemma as_num_None e : as_num e = None -> is_num e = false.
-Proof. destruct e; cbn; intros H; try discriminate; reflexivity. Qed.
 
 Section S.
   Variable rho : string -> R.
@@ -169,25 +165,6 @@ Section S.
   Qed.
 
   (* ---------- min / max folding *)
-  Lemma xq_max_Fin a b : exists c, xq_max (Fin a) (Fin b) = Fin c /\ Q2R c = Rmax (Q2R a) (Q2R b).
-  Proof.
-    cbn [xq_max]. unfold xq_leb; cbn [xq_ltb xq_eqb].
-    destruct (q_ltb a b) eqn:L; cbn [orb].
-    - exists b; split; [reflexivity|]. apply q_ltb_true in L. rewrite Rmax_right; lra.
-    - destruct (q_eqb a b) eqn:Q.
-      + exists b; split; [reflexivity|]. apply q_eqb_true in Q. rewrite Rmax_right; lra.
-      + exists a; split; [reflexivity|]. apply q_ltb_false in L. rewrite Rmax_left; lra.
-  Qed.
-  Lemma xq_min_Fin a b : exists c, xq_min (Fin a) (Fin b) = Fin c /\ Q2R c = Rmin (Q2R a) (Q2R b).
-  Proof.
-    cbn [xq_min]. unfold xq_leb; cbn [xq_ltb xq_eqb].
-    destruct (q_ltb a b) eqn:L; cbn [orb].
-    - exists a; split; [reflexivity|]. apply q_ltb_true in L. rewrite Rmin_left; lra.
-    - destruct (q_eqb a b) eqn:Q.
-      + exists a; split; [reflexivity|]. apply q_eqb_true in Q. rewrite Rmin_left; lra.
-      + exists b; split; [reflexivity|]. apply q_ltb_false in L. rewrite Rmin_right; lra.
-  Qed.
-
   Lemma fold_xq_max qs : forall a, exists c,
     fold_left xq_max (map Fin qs) (Fin a) = Fin c /\ Q2R c = fold_left Rmax (map Q2R qs) (Q2R a).
   Proof.
